@@ -123,7 +123,7 @@ unsafe impl Hal for SimHal {
             w.hal_event(HalEv::MmioMap { paddr, size });
             let v = match w.hal.mmio_virt_of {
                 Some(f) => f(paddr, size),
-                None => crate::mmio::BAR_VIRT_BASE + (paddr as usize & 0xffff_ffff_ffff),
+                None => crate::pcidev::map_window(w, paddr, size),
             };
             NonNull::new(v as *mut u8).unwrap()
         })
